@@ -90,11 +90,12 @@ pub fn gen_hermes_doc(rng: &mut Rng, size: usize) -> Value {
 }
 
 pub fn gen(rng: &mut Rng, size: usize) -> Value {
-    let prefixes: Vec<Value> = match rng.below(5) {
+    let prefixes: Vec<Value> = match rng.below(6) {
         0 => vec![],
         1 => vec![cps("/abs")],
         2 => vec![cps("/abs/")],
         3 => vec![cps("dir"), cps("/abs"), cps("http://h")],
+        4 => vec![cps("/"), cps("abs"), cps("dir")],          // chained: the remainder begins with a later prefix
         _ => vec![cps("r"), cps("r/dir/")],
     };
     let opts = json!({"names": rng.chance(1, 2), "contents": rng.chance(1, 2), "prefixes": prefixes});
